@@ -1,3 +1,4 @@
+import aritylib
 """C10 - Ord instances are strict total orders; sorting is an ordered permutation.
 
 (A) TLC (Typeclass.tla): SemLess - None < Some, nil pointer first, lexicographic on sequences/tuples with the shorter prefix
@@ -20,6 +21,8 @@ def run(c):
         return tcrun.replay(c, "C10")
     rng = random.Random(c.seed)
     c.tlc_expect_clean("Typeclass", "MCTypeclass")
+    # the TupleN instances of this typeclass at every arity 2..21 (position-tagged arguments, judged by Arity.tla)
+    aritylib.family_subrun(c, "C10", ["ord.Tuple"])
     cases = []
     for rep in range(4 if c.thorough else 1):
         cases += tclib.cases("ord", rng, per_type=12 if c.thorough else 10)
